@@ -1,5 +1,5 @@
 """Sidecar: contracts on the real functions of /repo, keyed by file::qualname.  Nothing here edits /repo."""
-MODULES=['bits_reg','dsl','mem','sched','nets','upblk','gendag','portrules','mambaff','sccwrap','watched']
+MODULES=['bits_reg','dsl','mem','sched','nets','upblk','gendag','portrules','mambaff','sccwrap','watched','netrules']
 
 def rtl_specs():
   from . import rtl_arb, rtl_queues, rtl_cksum
@@ -143,8 +143,8 @@ PROPERTIES={
    explanation="net grouping proved deductively on the real function; writer choice and simulated net values by an executable statement of the property on an enumerated family of connection graphs",
    extra=['contracts:c08_extra'], require_cover=False, assumptions=["the adjacency map is symmetric (every connect/disconnect updates both directions)"]),
  'C09': dict(level='other',
-   claim="Mixed. Proved: Connectable._overlap (the bit-overlap test used for sibling slices) is exact; ComponentLevel3._floodfill_nets leaves only with its nets or with InvalidConnectionError (never another exception) for every symmetric adjacency map, self-connections included; ComponentLevel2._check_upblk_writes, for arbitrary write sets and arbitrary signal hierarchies (parent chains of any depth, any sibling-slice overlap relation), returns normally only if no signal, no signal and one of its signal ancestors, and no pair of overlapping sibling slices is written by two different update blocks, and raises nothing but MultiWriterError; ComponentLevel2._check_port_in_upblk returns normally only if every Wire read or written and every OutPort written by an update block belongs to the block's own component and every InPort written belongs to a child of the block's component (host component = first component on the parent chain, any depth), and raises nothing but SignalTypeError. Bounded stand-in: 47 designs covering every defect class of the statement (two blocks on one signal, field vs parent, nested field twice, overlapping slices, slice vs whole, block vs net, two nets, net vs slice, undriven net, connection loops in 3 orders, 10 hierarchical-position cases for blocks and nets incl. constants, 9 wrong-operator cases incl. nested statements) in every order of their statements fail elaboration with the corresponding error class, and the defect-free counterparts (disjoint slices/fields, one block writing overlapping slices, tree connections, legal parent/child accesses) elaborate.",
-   note="_check_port_in_nets / _resolve_value_connections are not under discharged contracts; the structure methods of signals (is_signal, get_parent_object, get_sibling_slices, slice_overlap) are pure uninterpreted functions in the proof of _check_upblk_writes; designs with two simultaneous defects may report either error. Labelled bounded.",
+   claim="Mixed. Proved: Connectable._overlap (the bit-overlap test used for sibling slices) is exact; ComponentLevel3._floodfill_nets leaves only with its nets or with InvalidConnectionError (never another exception) for every symmetric adjacency map, self-connections included; ComponentLevel2._check_upblk_writes, for arbitrary write sets and arbitrary signal hierarchies (parent chains of any depth, any sibling-slice overlap relation), returns normally only if no signal, no signal and one of its signal ancestors, and no pair of overlapping sibling slices is written by two different update blocks, and raises nothing but MultiWriterError; ComponentLevel2._check_port_in_upblk returns normally only if every Wire read or written and every OutPort written by an update block belongs to the block's own component and every InPort written belongs to a child of the block's component (host component = first component on the parent chain, any depth), and raises nothing but SignalTypeError; ComponentLevel3._check_port_in_nets returns normally only if, in every net, the signals reached from the writer are closed under adjacency and each was reached over an edge whose driver / driven port kinds are legal for the relative position of their host components (same host, driven host is the parent, driver host is the parent, siblings; farther apart is rejected). Bounded stand-in: 47 designs covering every defect class of the statement (two blocks on one signal, field vs parent, nested field twice, overlapping slices, slice vs whole, block vs net, two nets, net vs slice, undriven net, connection loops in 3 orders, 10 hierarchical-position cases for blocks and nets incl. constants, 9 wrong-operator cases incl. nested statements) in every order of their statements fail elaboration with the corresponding error class, and the defect-free counterparts (disjoint slices/fields, one block writing overlapping slices, tree connections, legal parent/child accesses) elaborate.",
+   note="_resolve_value_connections / _collect_vars are not under discharged contracts; the structure methods of signals (is_signal, get_parent_object, get_sibling_slices, slice_overlap) are pure uninterpreted functions in the proof of _check_upblk_writes; designs with two simultaneous defects may report either error. Labelled bounded.",
    explanation="one helper proved; the elaboration checks are exercised natively on an enumerated defect table",
    extra=['contracts:c09_extra'], require_cover=False, assumptions=[]),
  'C18': dict(level='other',
